@@ -27,7 +27,8 @@ EXTENDS Integers, Sequences, FiniteSets, TLC, Util, VmGuards
 
 CONSTANTS MaxLua,        \* maximal number of Lua frames on the stack (length of call chains)
           AmountSigns,   \* signs of the amount a contract may pass to send/call: subset of {-1, 0, 1}
-          ForkVersions   \* hardfork versions explored
+          ForkVersions,  \* hardfork versions explored
+          Direct         \* TRUE: contract code may also invoke every Go callback directly (hedge, see ApiSet)
 
 VARIABLES isQuery,       \* vmContext.isQuery
           nestedView,    \* vmContext.nestedView
@@ -35,12 +36,13 @@ VARIABLES isQuery,       \* vmContext.isQuery
           sqlHandle,     \* "none" | "ro" | "rw": SQL transaction opened by luaGetDbHandle / LuaGetDbHandleSnap
           rsWritable,    \* a result set was bound to a statement not known to be read-only
           ctxMade,       \* a vmContext value has been constructed (contract code cannot run without one)
-          stack,         \* sequence of activations / Lua frames, top = last
+          stack,         \* sequence of activations / Lua frames, top = last (see "run" for what is kept)
+          depth,         \* number of Lua frames entered on the current call chain
           viol,          \* first property violation (history variable), NoViol if none
           lastAct        \* what the last step did (hidden by VIEW)
 
-vars == <<isQuery, nestedView, fork, sqlHandle, rsWritable, ctxMade, stack, viol, lastAct>>
-view == <<isQuery, nestedView, fork, sqlHandle, rsWritable, ctxMade, stack, viol>>
+vars == <<isQuery, nestedView, fork, sqlHandle, rsWritable, ctxMade, stack, depth, viol, lastAct>>
+view == <<isQuery, nestedView, fork, sqlHandle, rsWritable, ctxMade, stack, depth, viol>>
 
 NoViol == [kind |-> "none", proc |-> "", src |-> "", what |-> ""]
 
@@ -51,10 +53,11 @@ ReadOnlyEntries == {"Query", "CheckFeeDelegation"} \cap Entries
 \* every Go callback directly -- except the two that ARE the nesting mechanism (only LuaJIT's wrapper calls them).
 NestingPrimitives == {"luaViewStart", "luaViewEnd"}
 Relevant(p) == Len(Procs[p]) > 1
-ApiSet == {p \in CApi \cup (GoCallbacks \ NestingPrimitives) : Relevant(p)}
+Calls(p, q) == \E i \in 1..Len(Procs[p]) : Procs[p][i].k = "cb" /\ Procs[p][i].a = q
+CalledFromC(q) == \E p \in ProcNames \ GoCallbacks : Calls(p, q)
+ApiSet == {p \in CApi \cup {q \in GoCallbacks \ NestingPrimitives : Direct \/ ~CalledFromC(q)} : Relevant(p)}
 
 HasAtom(p, a) == \E i \in 1..Len(Procs[p]) : Procs[p][i].k = "test" /\ Procs[p][i].a = a
-Calls(p, q) == \E i \in 1..Len(Procs[p]) : Procs[p][i].k = "cb" /\ Procs[p][i].a = q
 \* processes whose behaviour depends on the amount / the statement kind (directly or through a callback)
 AmtProcs == {p \in ProcNames : HasAtom(p, "amt") \/ \E q \in ProcNames : Calls(p, q) /\ HasAtom(q, "amt")}
 SroProcs == {p \in ProcNames : HasAtom(p, "sro") \/ \E i \in 1..Len(Procs[p]) : Procs[p][i].k \in {"sqlstep", "mkrs"}}
@@ -65,7 +68,6 @@ Balanced(p) == p \notin NestingPrimitives /\ ~(\E q \in NestingPrimitives : Call
 RO == isQuery \/ nestedView > 0
 
 Top == stack[Len(stack)]
-NLua(s) == Cardinality({i \in 1..Len(s) : s[i].t = "lua"})
 
 Act(p, amt, sro, iv, ro) ==
   [t |-> "cfg", p |-> p, pc |-> ProcEntry[p], amt |-> amt, sro |-> sro, ds |-> {}, iv |-> iv, ro |-> ro, nv0 |-> nestedView]
@@ -92,7 +94,7 @@ Flag(kind, a, n, what) == IF viol = NoViol THEN [kind |-> kind, proc |-> a.p, sr
 
 Init == /\ isQuery = FALSE /\ nestedView = 0          \* Go zero values of a fresh vmContext
         /\ fork \in ForkVersions
-        /\ sqlHandle = "none" /\ rsWritable = FALSE /\ ctxMade = FALSE
+        /\ sqlHandle = "none" /\ rsWritable = FALSE /\ ctxMade = FALSE /\ depth = 0
         /\ viol = NoViol
         /\ \E e \in Entries :
              /\ stack = <<[t |-> "cfg", p |-> e, pc |-> ProcEntry[e], amt |-> 0, sro |-> TRUE, ds |-> {}, iv |-> FALSE,
@@ -107,84 +109,90 @@ Step ==
      IN /\ lastAct' = [name |-> "Step", proc |-> a.p, pc |-> a.pc, k |-> n.k, src |-> n.src]
         /\ CASE n.k = "test" ->
                   /\ stack' = Goto(a, IF Eval(a, n) THEN n.t ELSE n.f)
-                  /\ UNCHANGED <<isQuery, nestedView, fork, sqlHandle, rsWritable, ctxMade, viol>>
+                  /\ UNCHANGED <<isQuery, nestedView, fork, sqlHandle, rsWritable, ctxMade, depth, viol>>
              [] n.k = "nd" ->
                   /\ \E pc \in {n.t, n.f} : stack' = Goto(a, pc)
-                  /\ UNCHANGED <<isQuery, nestedView, fork, sqlHandle, rsWritable, ctxMade, viol>>
+                  /\ UNCHANGED <<isQuery, nestedView, fork, sqlHandle, rsWritable, ctxMade, depth, viol>>
              [] n.k = "mut" ->
                   \* the entry points themselves (commit after the execution) are judged by the context kind only
                   /\ viol' = IF (IF a.p \in Entries THEN isQuery ELSE RO) THEN Flag("mutation", a, n, n.a) ELSE viol
                   /\ stack' = Goto(a, n.t)
-                  /\ UNCHANGED <<isQuery, nestedView, fork, sqlHandle, rsWritable, ctxMade>>
+                  /\ UNCHANGED <<isQuery, nestedView, fork, sqlHandle, rsWritable, ctxMade, depth>>
              [] n.k \in {"restore", "unknown", "skip"} ->
                   /\ stack' = Goto(a, n.t)
-                  /\ UNCHANGED <<isQuery, nestedView, fork, sqlHandle, rsWritable, ctxMade, viol>>
+                  /\ UNCHANGED <<isQuery, nestedView, fork, sqlHandle, rsWritable, ctxMade, depth, viol>>
              [] n.k = "flag" /\ n.a = "nestedView" ->
                   /\ \E v \in (IF n.op = "+=" THEN {nestedView + n.c} ELSE IF n.op = "=" THEN {n.c} ELSE {0, 1}) :
                         /\ nestedView' = v
                         \* only increments/decrements are legitimate once contract code is running
-                        /\ viol' = IF n.op # "+=" /\ NLua(stack) > 0 /\ v # nestedView
+                        /\ viol' = IF n.op # "+=" /\ depth > 0 /\ v # nestedView
                                    THEN Flag("flag-reset", a, n, "nestedView") ELSE viol
                   /\ stack' = Goto(a, n.t)
-                  /\ UNCHANGED <<isQuery, fork, sqlHandle, rsWritable, ctxMade>>
+                  /\ UNCHANGED <<isQuery, fork, sqlHandle, rsWritable, ctxMade, depth>>
              [] n.k = "flag" /\ n.a = "isQuery" ->
                   /\ \E v \in (IF n.op = "=" THEN {n.c = 1} ELSE BOOLEAN) :
                         /\ isQuery' = v
-                        /\ viol' = IF NLua(stack) > 0 /\ v # isQuery THEN Flag("flag-reset", a, n, "isQuery") ELSE viol
+                        /\ viol' = IF depth > 0 /\ v # isQuery THEN Flag("flag-reset", a, n, "isQuery") ELSE viol
                   /\ stack' = Goto(a, n.t)
-                  /\ UNCHANGED <<nestedView, fork, sqlHandle, rsWritable, ctxMade>>
+                  /\ UNCHANGED <<nestedView, fork, sqlHandle, rsWritable, ctxMade, depth>>
              [] n.k = "flag" /\ n.a = "isView" ->
                   /\ \E v \in (IF n.op = "=" THEN {n.c = 1} ELSE BOOLEAN) :
                         stack' = SetTop([a EXCEPT !.pc = n.t, !.iv = v])
-                  /\ UNCHANGED <<isQuery, nestedView, fork, sqlHandle, rsWritable, ctxMade, viol>>
+                  /\ UNCHANGED <<isQuery, nestedView, fork, sqlHandle, rsWritable, ctxMade, depth, viol>>
              [] n.k = "ctx" ->
                   /\ ctxMade' = TRUE
                   /\ stack' = Goto(a, n.t)
-                  /\ UNCHANGED <<isQuery, nestedView, fork, sqlHandle, rsWritable, viol>>
+                  /\ UNCHANGED <<isQuery, nestedView, fork, sqlHandle, rsWritable, depth, viol>>
              [] n.k = "sqlopen" ->
                   /\ sqlHandle' = n.a
                   /\ stack' = Goto(a, n.t)
-                  /\ UNCHANGED <<isQuery, nestedView, fork, rsWritable, ctxMade, viol>>
+                  /\ UNCHANGED <<isQuery, nestedView, fork, rsWritable, ctxMade, depth, viol>>
              [] n.k = "sqlstep" ->
                   \* a step writes iff the statement is not read-only and the connection is writable
                   /\ LET stmtRO == IF n.a = "rs->s" THEN ~rsWritable ELSE a.sro
                          writes == ~stmtRO /\ sqlHandle = "rw"
                      IN viol' = IF writes /\ RO THEN Flag("mutation", a, n, "sql") ELSE viol
                   /\ stack' = Goto(a, n.t)
-                  /\ UNCHANGED <<isQuery, nestedView, fork, sqlHandle, rsWritable, ctxMade>>
+                  /\ UNCHANGED <<isQuery, nestedView, fork, sqlHandle, rsWritable, ctxMade, depth>>
              [] n.k = "mkrs" ->
                   /\ rsWritable' = (rsWritable \/ ~a.sro)
                   /\ stack' = Goto(a, n.t)
-                  /\ UNCHANGED <<isQuery, nestedView, fork, sqlHandle, ctxMade, viol>>
+                  /\ UNCHANGED <<isQuery, nestedView, fork, sqlHandle, ctxMade, depth, viol>>
              [] n.k \in {"defer", "undefer"} ->
                   /\ stack' = SetTop([a EXCEPT !.pc = n.t,
                                                !.ds = IF n.k = "defer" THEN a.ds \cup {n.c} ELSE a.ds \ {n.c}])
-                  /\ UNCHANGED <<isQuery, nestedView, fork, sqlHandle, rsWritable, ctxMade, viol>>
+                  /\ UNCHANGED <<isQuery, nestedView, fork, sqlHandle, rsWritable, ctxMade, depth, viol>>
              [] n.k = "exec" ->       \* nested contract execution: (*executor).call with the executor's isView
                   \* (a path on which no context was built cannot get here in the code: it ends)
                   /\ stack' = IF ctxMade THEN Append(Goto(a, n.t), Act("executor.call", 0, TRUE, a.iv, a.ro)) ELSE <<>>
-                  /\ UNCHANGED <<isQuery, nestedView, fork, sqlHandle, rsWritable, ctxMade, viol>>
+                  /\ UNCHANGED <<isQuery, nestedView, fork, sqlHandle, rsWritable, ctxMade, depth, viol>>
              [] n.k = "cb" ->         \* C code calls a Go callback (or a C shim): arguments are arbitrary
                   /\ IF n.a \in ProcNames
                      THEN \E amt \in (IF n.a \in AmtProcs THEN AmountSigns ELSE {0}) :
                             stack' = Append(Goto(a, n.t), Act(n.a, amt, a.sro, FALSE, a.ro))
                      ELSE stack' = Goto(a, n.t)
-                  /\ UNCHANGED <<isQuery, nestedView, fork, sqlHandle, rsWritable, ctxMade, viol>>
+                  /\ UNCHANGED <<isQuery, nestedView, fork, sqlHandle, rsWritable, ctxMade, depth, viol>>
              [] n.k = "run" ->        \* the Lua function body runs
-                  /\ IF NLua(stack) < MaxLua
-                     THEN stack' = Append(Goto(a, n.t),
-                                          LuaFrame(a.ro \/ (a.p = "executor.call" /\ a.iv) \/ a.p = "lj_view_wrapper"))
-                     ELSE stack' = Goto(a, n.t)
+                  \* Reduction (exact for the properties): what a callee can do to the shared context its caller
+                  \* can do itself before the call, so (a) the caller's continuation is explored with the body
+                  \* skipped, and (b) the body is explored with everything below the bracketing activation
+                  \* (executor.call / view wrapper: the one that restores the view depth) forgotten.
+                  /\ \/ /\ stack' = Goto(a, n.t)
+                        /\ depth' = depth
+                     \/ /\ depth < MaxLua
+                        /\ stack' = <<[a EXCEPT !.pc = n.t],
+                                      LuaFrame(a.ro \/ (a.p = "executor.call" /\ a.iv) \/ a.p = "lj_view_wrapper")>>
+                        /\ depth' = depth + 1
                   /\ UNCHANGED <<isQuery, nestedView, fork, sqlHandle, rsWritable, ctxMade, viol>>
              [] n.k = "throw" ->      \* Lua error raised in a C shim: unwinds to the innermost Lua frame
                   /\ LET L == {i \in 1..Len(stack) : stack[i].t = "lua"}
                      IN stack' = IF L = {} THEN <<>> ELSE SubSeq(stack, 1, Max(L))
-                  /\ UNCHANGED <<isQuery, nestedView, fork, sqlHandle, rsWritable, ctxMade, viol>>
+                  /\ UNCHANGED <<isQuery, nestedView, fork, sqlHandle, rsWritable, ctxMade, depth, viol>>
              [] n.k = "ret" ->
                   /\ viol' = IF Balanced(a.p) /\ nestedView < a.nv0
                              THEN Flag("unbalanced", a, n, "view depth lower at return than at entry") ELSE viol
                   /\ stack' = SubSeq(stack, 1, Len(stack) - 1)
-                  /\ UNCHANGED <<isQuery, nestedView, fork, sqlHandle, rsWritable, ctxMade>>
+                  /\ UNCHANGED <<isQuery, nestedView, fork, sqlHandle, rsWritable, ctxMade, depth>>
 
 \* ------------------------------------------------------------------ contract code (a Lua frame on top)
 \* a frame that must be read-only (declared view, called from a view, query, fee-delegation check) really is
@@ -200,23 +208,23 @@ LuaInvoke ==
         /\ stack' = Append(stack, Act(p, amt, sro, FALSE, Top.ro))
         /\ lastAct' = [name |-> "LuaInvoke", proc |-> p, pc |-> amt, k |-> IF sro THEN "readonly-stmt" ELSE "any-stmt", src |-> ""]
   /\ viol' = FrameCheck(Top)
-  /\ UNCHANGED <<isQuery, nestedView, fork, sqlHandle, rsWritable, ctxMade>>
+  /\ UNCHANGED <<isQuery, nestedView, fork, sqlHandle, rsWritable, ctxMade, depth>>
 
 \* call of a view function of the same contract: LuaJIT brackets it with the two hooks
 LuaViewCall ==
-  /\ Len(stack) > 0 /\ Top.t = "lua" /\ NLua(stack) < MaxLua
+  /\ Len(stack) > 0 /\ Top.t = "lua"
   /\ "lj_view_wrapper" \in ProcNames
   /\ stack' = Append(stack, Act("lj_view_wrapper", 0, TRUE, FALSE, Top.ro))
   /\ lastAct' = [name |-> "LuaViewCall", proc |-> "lj_view_wrapper", pc |-> 0, k |-> "", src |-> ""]
   /\ viol' = FrameCheck(Top)
-  /\ UNCHANGED <<isQuery, nestedView, fork, sqlHandle, rsWritable, ctxMade>>
+  /\ UNCHANGED <<isQuery, nestedView, fork, sqlHandle, rsWritable, ctxMade, depth>>
 
 LuaReturn ==
   /\ Len(stack) > 0 /\ Top.t = "lua"
   /\ stack' = SubSeq(stack, 1, Len(stack) - 1)
   /\ lastAct' = [name |-> "LuaReturn", proc |-> "", pc |-> 0, k |-> "", src |-> ""]
   /\ viol' = FrameCheck(Top)
-  /\ UNCHANGED <<isQuery, nestedView, fork, sqlHandle, rsWritable, ctxMade>>
+  /\ UNCHANGED <<isQuery, nestedView, fork, sqlHandle, rsWritable, ctxMade, depth>>
 
 Next == Step \/ LuaInvoke \/ LuaViewCall \/ LuaReturn
 
@@ -224,7 +232,7 @@ Spec == Init /\ [][Next]_vars
 
 \* ------------------------------------------------------------------ properties
 TypeOK == /\ isQuery \in BOOLEAN /\ nestedView \in Int /\ fork \in ForkVersions
-          /\ sqlHandle \in {"none", "ro", "rw"} /\ rsWritable \in BOOLEAN /\ ctxMade \in BOOLEAN
+          /\ sqlHandle \in {"none", "ro", "rw"} /\ rsWritable \in BOOLEAN /\ ctxMade \in BOOLEAN /\ depth \in 0..MaxLua
           /\ \A i \in 1..Len(stack) : stack[i].t \in {"cfg", "lua"} /\ (stack[i].t = "cfg" => stack[i].p \in ProcNames)
 
 \* no mutating primitive (storage, balance, code, nonce, account, event, governance, SQL write) runs while read-only
